@@ -56,7 +56,8 @@ Inductive cev :=
 | CReg (n : nat)
 | CUsable (b : bool)
 | CWcb                                    (* a write callback of the script (it runs the behaviour script, too) *)
-| CScb.                                   (* the shutdown callback of the script *)                     (* at a connect callback with status 0: the stream has been opened
+| CScb                                    (* the shutdown callback of the script *)
+| CTry (c : Z).                           (* return value of uv_try_write / uv_try_write2 *)                     (* at a connect callback with status 0: the stream has been opened
                                              (uv_is_readable / uv_is_writable), unless the script shut it down *)                         (* loop->active_reqs.count observed after an operation *)
 
 Inductive cop :=
@@ -69,6 +70,8 @@ Inductive cop :=
 | CWrite                                      (* uv_write of one byte (its callback does nothing) *)
 | CShut                                       (* uv_shutdown (its callback does nothing) *)
 | CRead                                       (* uv_read_start (alloc/read callbacks do nothing) *)
+| CTryWrite                                   (* uv_try_write (uv_try_write2 on pipes) of one byte, issued by the
+                                                 scripts only while a connect is pending *)
 | CClose
 | CRun.
 
@@ -252,6 +255,10 @@ Definition cexec_simple (x : cst) (o : cop) : cst * list cev :=
   | CClose => cclose x
   | CRun => (x, [])
   | CWrite | CShut | CRead => aux_op x o
+  | CTryWrite =>
+      (* if (stream->connect_req != NULL || stream->write_queue_size != 0) return UV_EAGAIN; - nothing is
+         written, nothing changes *)
+      if c_closing (cs x) || negb (c_fd (cs x)) || negb (pending (cs x)) then (x, []) else (x, [CTry UV_EAGAIN_])
   | _ =>
     if c_closing (cs x) then (x, []) else
     match o with
